@@ -396,6 +396,75 @@ def check_layout_siblings(run: Run) -> None:
             run.violation("R05.7", em, fname, f"zone layout in {fname}", f"{fname} lays out a literal zone differently from its siblings ({', '.join(bad)}): content must be appended unchanged as its own element exactly when non-empty, followed by the closing fence line - otherwise trailing blank lines of a zone are eaten or added on every pass")
 
 
+# ======================================================================================= R05.8
+TEXT_TRANSFORM_FUNCS = {"textwrap.dedent", "textwrap.indent", "textwrap.fill", "inspect.cleandoc", "unicodedata.normalize", "re.sub", "re.subn"}
+TEXT_TRANSFORM_METHODS = {"expandtabs", "splitlines", "title", "upper", "lower", "casefold", "swapcase", "translate", "zfill", "center", "ljust", "rjust"}
+
+
+def check_prelex_text(run: Run, rule: str) -> None:
+    run.rule(rule, "text on its way to the lexer is never put through a whole-text transformer: in the helpers that rewrite octave_write's input before parsing (found from the assignments to the variable that is parsed) no dedent/indent/normalize/re.sub/expandtabs/splitlines/case call receives the content or anything derived from it, and the lexer, parser and emitter split text on '\\n' only (str.splitlines also splits on U+2028, U+0085, VT, FF ...)", 3)
+    p = run.project
+    w = p.mod("mcp.write")
+    fi = w.func("WriteTool.execute")
+    parsed_vars = set()
+    for n in walk_no_nested(fi.node):
+        if isinstance(n, ast.Call) and isinstance(n.func, ast.Name) and n.func.id in ("parse", "parse_with_warnings", "tokenize") and n.args and isinstance(n.args[0], ast.Name):
+            parsed_vars.add(n.args[0].id)
+    helpers = set()
+    for n in walk_no_nested(fi.node):
+        if isinstance(n, ast.Assign) and isinstance(n.value, ast.Call) and isinstance(n.value.func, ast.Attribute) and isinstance(n.value.func.value, ast.Name) and n.value.func.value.id == "self":
+            tg = n.targets[0]
+            names = {x.id for x in ast.walk(tg) if isinstance(x, ast.Name)}
+            if names & parsed_vars and any(isinstance(a, ast.Name) and a.id in parsed_vars for a in n.value.args):
+                helpers.add(n.value.func.attr)
+    if len(helpers) < 2:
+        raise AnalysisError(f"WriteTool.execute: pre-lexing helpers not found ({sorted(helpers)})")
+    for h in sorted(helpers):
+        hf = w.func(f"WriteTool.{h}")
+        params = [a.arg for a in hf.node.args.args if a.arg != "self"]  # type: ignore[attr-defined]
+        derived = {params[0]} if params else set()
+        changed = True
+        while changed:
+            changed = False
+            for n in walk_no_nested(hf.node):
+                if isinstance(n, ast.Assign) and any(isinstance(x, ast.Name) and x.id in derived for x in ast.walk(n.value)):
+                    for t in n.targets:
+                        for x in ast.walk(t):
+                            if isinstance(x, ast.Name) and x.id not in derived:
+                                derived.add(x.id)
+                                changed = True
+                if isinstance(n, ast.For) and any(isinstance(x, ast.Name) and x.id in derived for x in ast.walk(n.iter)):
+                    for x in ast.walk(n.target):
+                        if isinstance(x, ast.Name) and x.id not in derived:
+                            derived.add(x.id)
+                            changed = True
+        bad = []
+        for n in walk_no_nested(hf.node):
+            if not isinstance(n, ast.Call):
+                continue
+            mentions = lambda e: any(isinstance(x, ast.Name) and x.id in derived for x in ast.walk(e))  # noqa: E731
+            ft = _text(n.func)
+            if ft in TEXT_TRANSFORM_FUNCS and any(mentions(a) for a in n.args):
+                bad.append(n)
+            elif isinstance(n.func, ast.Attribute) and n.func.attr in TEXT_TRANSFORM_METHODS and mentions(n.func.value):
+                bad.append(n)
+        run.instance(rule, w.loc(hf.node), f"{h}: content-derived names {sorted(derived)[:6]}; whole-text transformers applied: {[_text(b)[:40] for b in bad]}", ok=not bad)
+        for b in bad:
+            run.violation(rule, w, hf.qualname, f"{_text(b.func)}(...) on the text to be parsed", f"{h} puts the text that is about to be lexed through `{_text(b)[:60]}`: the call works on every line, including the content lines of literal zones (blank-line blanking, tab expansion, case or Unicode folding), before the lexer can protect them")
+    # line splitting in the core pipeline
+    n_split = 0
+    for short in ("core.lexer", "core.parser", "core.emitter"):
+        m = p.mod(short)
+        for f2 in m.functions.values():
+            for n in walk_no_nested(f2.node):
+                if isinstance(n, ast.Call) and isinstance(n.func, ast.Attribute) and n.func.attr == "splitlines":
+                    n_split += 1
+                    run.violation(rule, m, f2.qualname, f"{_text(n)[:50]}", "str.splitlines() also splits on U+2028, U+2029, U+0085, VT, FF, FS, GS, RS: a quoted value, comment or literal zone containing one of them is cut into lines and re-joined with '\\n' (content changed on the first read)")
+    run.instance(rule, "src/octave_mcp/core", f"lexer/parser/emitter: {n_split} use(s) of str.splitlines()", ok=n_split == 0)
+    ctl = ast.parse("x.splitlines()").body[0].value  # type: ignore[attr-defined]
+    run.control(rule, "a `.splitlines()` call is recognised", isinstance(ctl, ast.Call) and ctl.func.attr == "splitlines")  # type: ignore[attr-defined]
+
+
 def check(run: Run) -> None:
     p = run.project
     scope = [p.mod(s) for s in SCOPE_QUICK] if run.tier == "quick" else list(p.modules.values())
@@ -405,4 +474,5 @@ def check(run: Run) -> None:
     check_prepass_protection(run, "R05.5")
     check_text_passes(run)
     check_layout_siblings(run)
+    check_prelex_text(run, "R05.8")
     run.assume("byte equality of zone content through a whole pipeline, and the collapse of a zone holding exactly one empty line into an empty zone (a value-level fact of the token representation) are not decided")
